@@ -313,11 +313,23 @@ class Sym:
         if isinstance(st, (ast.FunctionDef, ast.AsyncFunctionDef)):
             info = getattr(st, '_info', None)
             body = [b for b in st.body if not (isinstance(b, ast.Expr) and isinstance(b.value, ast.Constant) and isinstance(b.value.value, str))]
-            if info and not st.decorator_list and len(body) == 1 and isinstance(body[0], ast.Return) and body[0].value is not None and not st.args.args and not st.args.vararg \
-                    and not st.args.kwarg and not st.args.kwonlyargs and not st.args.posonlyargs:
+            noargs = not st.args.args and not st.args.vararg and not st.args.kwarg and not st.args.kwonlyargs and not st.args.posonlyargs
+            if info and not st.decorator_list and len(body) == 1 and isinstance(body[0], ast.Return) and body[0].value is not None and noargs:
                 # `def f(): return <expr>` is the lambda `lambda: <expr>`
                 sub = _Frame(Ctx(info, fr.ctx.recv), fr.self_term, fr.self_cls, fr.depth)
                 env.set(st.name, ('lam', (), self.ev(body[0].value, _Env(env), sub)))
+                return None
+            if info and not st.decorator_list and noargs and isinstance(st, ast.FunctionDef) and fr.depth < MAX_DEPTH \
+                    and not any(isinstance(n_, (ast.Yield, ast.YieldFrom, ast.Nonlocal, ast.Global)) for n_ in ast.walk(st)) \
+                    and not any(isinstance(n_, ast.Call) and isinstance(n_.func, ast.Name) and n_.func.id == st.name for n_ in ast.walk(st)):
+                # a parameterless local function: its value term in the defining environment (as for a lambda)
+                sub = _Frame(Ctx(info, fr.ctx.recv), fr.self_term, fr.self_cls, fr.depth + 1)
+                self._stack.append(('closure', info.qualname))
+                try:
+                    bt = self._run_func(info, _Env(env), sub)
+                finally:
+                    self._stack.pop()
+                env.set(st.name, ('lam', (), bt))
                 return None
             env.set(st.name, ('closure', info.qualname, id(env)) if info else opaque(st.name))
             self._closures = getattr(self, '_closures', {})
